@@ -133,6 +133,14 @@ def run_shard(ctx):
                         for x in toks], n, off)
                     path = en.write_file(ctx.workdir, text)
                     argv = ['-f', path, '-na', str(na), '-twopl']
+                    if idx % 23 == 5:
+                        # a read that is ABORTED inside a tie (ill-formed entry) comes first; whatever it leaves
+                        # behind must not show in the next, well-formed read
+                        bad = en.write_file(ctx.workdir, '2 3\n1: (1 2, 3)\n2: 1\n1: 0: 1: 1 2\n2: 0: 1: 1\n3: 0: 1: 1\n', 'illformed.txt', plain=True)
+                        try:
+                            Solver(['-f', bad, '-na', '2', '-twopl'])
+                        except BaseException:
+                            ctx.cnt('aborted_reads_of_an_ill_formed_file_before_a_read')
                     ctx.cnt('reader_executions')
                     ctx.cov('%s_side_%d_agent' % (kind, na))
                     c2 = dict(case, file=text, kind=kind, na=na)
@@ -237,6 +245,13 @@ def generator_text_workload(ctx):
         v['t1'] = rng.choice([0.3, 0.6, 1.0, 0.0])
         if mp != 'ha':
             v['t2'] = rng.choice([0.3, 0.6, 1.0, 0.0])
+        if q % 10 == 7:
+            # a file of well over 8 KiB whose first-side part has no tie at all; ties only start on the second side
+            mp = 'hr'
+            v = {'mp': 'hr', 'numinst': 1, 'n1': rng.randint(1300, 1600), 'n2': rng.randint(3, 6), 'pmin': 1, 'pmax': 2,
+                 't1': 0.0, 't2': rng.choice([0.5, 0.8]), 'twopl': True}
+            v['uq'] = v['n1'] + 5
+            ctx.cnt('large_files_whose_ties_begin_after_8_kib')
         if mp == 'spa':
             v['twopl'] = True
         outdir = ge.fresh_outdir(ctx.workdir, 'c13g')
